@@ -38,10 +38,14 @@ def replay_enabled(case):
     d = tempfile.mkdtemp(prefix="vp-cfg-")
     try:
         argv = []
+        OTHER = "md047"
         if v["py_present"]:
-            open(os.path.join(d, "pyproject.toml"), "w").write(f"[tool.pymarkdown]\nplugins.{name}.enabled = {_toml_value(bool(v['py_value']))}\n")
+            open(os.path.join(d, "pyproject.toml"), "w").write(f"[tool.pymarkdown]\nplugins.{name}.enabled = {_toml_value(bool(v['py_value']))}\nplugins.{OTHER}.enabled = {_toml_value(bool(v.get('py_other', True)))}\n")
         if v["df_present"]:
-            json.dump({"plugins": {name: {"enabled": bool(v["df_value"])}}}, open(os.path.join(d, ".pymarkdown"), "w"))
+            dd = {"plugins": {name: {"enabled": bool(v["df_value"])}}}
+            if v.get("df_other_present"):
+                dd["plugins"][OTHER] = {"enabled": bool(v["df_other"])}
+            json.dump(dd, open(os.path.join(d, ".pymarkdown"), "w"))
         if v["cf_present"]:
             cf = os.path.join(d, "config.json")
             json.dump({"plugins": {name: {"enabled": bool(v["cf_value"])}}}, open(cf, "w"))
@@ -82,6 +86,16 @@ def replay_enabled(case):
         viol.append({"kind": "precedence", "detail": {"enabled": current, "expected": want}})
     if (m.group(1) == "True") != default:
         viol.append({"kind": "default-column", "detail": {"listed": m.group(1), "documented": default}})
+    mo = re.search(r"^\s*md047\s+.*?\s(True|False)\s+(True|False)\s+\d", text, re.M)
+    if mo and rule != "md047" and "py_other" in v:
+        if v["df_present"] and v.get("df_other_present"):
+            want_other = bool(v["df_other"])
+        elif v["py_present"]:
+            want_other = bool(v["py_other"])
+        else:
+            want_other = True
+        if (mo.group(2) == "True") != want_other:
+            viol.append({"kind": "precedence-other-rule", "detail": {"rule": "md047", "enabled": mo.group(2) == "True", "expected": want_other}})
     obs["violations"] = viol
     return {"violates": bool(viol), "observed": obs}
 
